@@ -134,6 +134,11 @@ Location locate_hunk(const std::vector<Line>& content, const Hunk& hunk, bool ig
         return line.operation != '+';
     }));
 
+    // Lines which can not fit the hunk before the end of the file can never match, so there is no need to start
+    // looking any further away than the end of the file.
+    const auto content_size = static_cast<LineNumber>(content.size());
+    const LineNumber search_start = std::max(min_line, std::min(offset_guess, content_size));
+
     for (LineNumber fuzz = 0; fuzz <= max_fuzz; ++fuzz) {
 
         auto suffix_fuzz = std::max<LineNumber>(fuzz + patch_suffix_content - context, 0);
@@ -173,13 +178,13 @@ Location locate_hunk(const std::vector<Line>& content, const Hunk& hunk, bool ig
         };
 
         // First look for the hunk in the forward direction
-        for (LineNumber line = std::max(offset_guess, min_line); static_cast<size_t>(line) < content.size(); ++line) {
+        for (LineNumber line = search_start; line < content_size; ++line) {
             if (hunk_matches_starting_from_line(line))
                 return { line, fuzz, line - offset_guess };
         }
 
         // Then look for it in the negative direction
-        for (LineNumber line = offset_guess - 1; line >= min_line; --line) {
+        for (LineNumber line = search_start - 1; line >= min_line; --line) {
             if (hunk_matches_starting_from_line(line))
                 return { line, fuzz, line - offset_guess };
         }
